@@ -127,6 +127,13 @@ fn main() {
             x(&ctx);
         }
     }
+    if let Ok(f) = std::env::var("VERIF_FUZZ_STATS") {
+        if let Ok(t) = std::fs::read_to_string(&f) {
+            if let Ok(v) = serde_json::from_str::<serde_json::Value>(&t) {
+                ctx.extra("libfuzzer_campaign", v);
+            }
+        }
+    }
     std::process::exit(ctx.finish());
 }
 
